@@ -127,7 +127,8 @@ def expected_events(world, top, model, ev):
             a = refmodel.parse_argv(W.entry_argv(e))
             if a["compiler"] not in refmodel.BUILTIN_COMPILERS:
                 exp["compilers"].append(a["compiler"])
-            unknown = [f for f in a["other"] if f != "-fopenmp"]
+            unknown = [f for f in a["other"]
+                       if not (f == "-fopenmp" and a["compiler"] in refmodel.BUILTIN_COMPILERS)]
             if unknown:
                 exp["flags"].append(unknown)
         if healthy == 0:
